@@ -13,12 +13,24 @@ import (
 func DetectDeviceConfigChanges(ctx context.Context) <-chan bool {
 	var change = make(chan bool)
 
+	// the directories are watched before this function returns: the caller loads the configurations next, and a change
+	// made after that load must not fall into a gap in which nothing is watching yet
+	watcher, err := fsnotify.NewWatcher()
+	if err != nil {
+		close(change)
+		return change
+	}
+	for _, path := range []string{
+		factoryGamepad,
+		factoryKeyboard,
+		userGamepad,
+		userKeyboard,
+	} {
+		err = watcher.Add(path)
+	}
+
 	go func() {
 		defer close(change)
-		watcher, err := fsnotify.NewWatcher()
-		if err != nil {
-			return
-		}
 
 		go func() {
 			<-ctx.Done()
@@ -27,15 +39,6 @@ func DetectDeviceConfigChanges(ctx context.Context) <-chan bool {
 				log.Info(fmt.Sprintf("closing watched failed: %v", err), logger.Debug)
 			}
 		}()
-
-		for _, path := range []string{
-			factoryGamepad,
-			factoryKeyboard,
-			userGamepad,
-			userKeyboard,
-		} {
-			err = watcher.Add(path)
-		}
 
 		// the watcher reports its errors on a channel of its own and stops delivering events until somebody takes them
 		for {
